@@ -16,6 +16,7 @@ package pointindex
 //@     && 0 - 1152921504606846976 <= ix.intExtent[0] && ix.intExtent[0] <= 1152921504606846976
 //@     && 0 - 1152921504606846976 <= ix.intExtent[1] && ix.intExtent[1] <= 1152921504606846976
 //@     && gridSpan(ix) <= 1152921504606846976
+//@     && ix.intExtent[0] + gridSpan(ix) <= ix.intExtent[2]
 //@     && !isNil(ix.quadrants)
 //@ macro inGrid(ix, px, py) = ix.intExtent[0] <= px && px < ix.intExtent[0] + gridSpan(ix)
 //@     && ix.intExtent[1] <= py && py < ix.intExtent[1] + gridSpan(ix)
@@ -54,7 +55,7 @@ package pointindex
 //@   ensures[C09] (result == nil) == (0 <= deepestX && deepestX < ix.deepestSize && 0 <= deepestY && deepestY < ix.deepestSize)
 //@   ensures[C09] result != nil ==> unchanged(ix.quadrants) && typeIs(result, "pointindex.OutsideGridError")
 //@   ensures wfIndex(ix) && indexInv0(ix) && indexGrid(ix)
-//@   ensures result == nil ==> storedQ(ix, 0, 0) && (roundGrid(ix) ==> indexInv(ix))
+//@   ensures result == nil ==> storedQ(ix, 0, 0) && indexInv(ix)
 //@   ensures[C06,C02] result == nil ==> coordCovered(ix, deepestX, deepestY)
 //@   ensures[C06,C02] keepsStored(ix)
 
@@ -114,11 +115,11 @@ package pointindex
 //@   proves forall(l Int, z Int, 1 <= l && l <= ix.deepestLevel && storedQ(ix, l, z) ==> quadOf(ix, l, z).intExtent == childExt(quadOf(ix, l - 1, z / 4), z % 2, (z / 2) % 2), trigger(storedK(ix, l, z))) using only; post(10); post(11); post(12); post(13)
 //@   proves linkInv(ix) using post(9); post(14)
 //@   proves storedQ(ix, 0, 0)
-//@   proves roundGrid(ix) ==> quadOf(ix, 0, 0) == ix.Quadrant using only; post(1); post(2); post(16); zero_key(0); roundtrip(0, 0); pow2_zero(0); tm_zero_one(even_bits(0), pixSpan(ix, 0)); tm_zero_one(even_bits(0 >> 1), pixSpan(ix, 0))
+//@   proves rootRepr(ix) using only; post(1); post(2); post(16); zero_key(0); roundtrip(0, 0); pow2_zero(0); tm_zero_one(even_bits(0), pixSpan(ix, 0)); tm_zero_one(even_bits(0 >> 1), pixSpan(ix, 0))
 //@   proves ix.deepestLevel <= 32 && !isNil(ix.quadrants) && extentOK(ix.intExtent)
 //@   ensures[C02,C03,C08,C09,C05,C06] indexInv0(ix) using only; post(8); post(15); post(18)
 //@   ensures[C02,C03,C08,C09,C05,C06] storedQ(ix, 0, 0)
-//@   ensures[C02,C03,C08,C09,C05,C06] roundGrid(ix) ==> indexInv(ix) using only; post(17); post(19); post(20)
+//@   ensures[C02,C03,C08,C09,C05,C06] indexInv(ix) using only; post(17); post(19); post(20)
 // C06 (the "no points found" guard): the pixel of the inserted coordinate is stored on every level, and nothing that
 // was stored is lost
 //@   ensures[C06,C02] coordCovered(ix, deepestX, deepestY)
@@ -204,6 +205,15 @@ package pointindex
 //@   ensures 0 <= ((px - minx) / res) / pow2(d - l)
 //@   ensures minx + (((px - minx) / res) / pow2(d - l)) * gs(res, d, l) <= px
 //@   ensures px < minx + (((px - minx) / res) / pow2(d - l) + 1) * gs(res, d, l)
+// an even number of deepest pixels: the half of the root's span, doubled, is the span
+//@ lemma even_span(P Int, res Int)
+//@   prelude arith
+//@   requires P % 2 == 0
+//@   ensures 2 * hfloor(P * res) == P * res
+//@ lemma div_mul_le(S Int, P Int)
+//@   prelude arith
+//@   requires S >= 0 && P >= 1
+//@   ensures P * (S / P) <= S && 0 <= S / P
 // floorDiv (Go: truncating quotient, one less when the remainder is negative) is the integer division rounding down
 //@ lemma floor_div(n Int, d Int)
 //@   prelude arith
@@ -247,7 +257,7 @@ package pointindex
 //@   ensures[C09] (result == nil) == inGrid(ix, px, py)
 //@   ensures[C09] result != nil ==> unchanged(ix.quadrants) && typeIs(result, "pointindex.OutsideGridError")
 //@   ensures wfIndex(ix) && indexInv0(ix) && indexGrid(ix)
-//@   ensures result == nil ==> storedQ(ix, 0, 0) && (roundGrid(ix) ==> indexInv(ix))
+//@   ensures result == nil ==> storedQ(ix, 0, 0) && indexInv(ix)
 //@   postlet dx = deepestX
 //@   postlet dy = deepestY
 //@   proves dx == coordX(ix, point) && dy == coordY(ix, point)
@@ -263,7 +273,7 @@ package pointindex
 
 // C09: InsertPolygon succeeds exactly when every vertex of every ring lies in the half-open grid.
 // The first loop only sums ring lengths into a capacity hint for make(map, n) and is not verified (havoc).
-//@ macro rootStored(ix) = storedQ(ix, 0, 0) && (roundGrid(ix) ==> indexInv(ix))
+//@ macro rootStored(ix) = storedQ(ix, 0, 0) && indexInv(ix)
 //@ macro idxOK(ix) = wfIndex(ix) && indexInv0(ix) && indexGrid(ix)
 //@ func (*PointIndex).InsertPolygon
 //@   prelude arith morton
@@ -413,6 +423,14 @@ package pointindex
 //@ macro half(p) = p.intCentroid[0] - p.intExtent[0]
 //@ macro wfParent(p) = half(p) > 0 && p.intCentroid[1] - p.intExtent[1] == half(p)
 //@     && p.intExtent[2] - p.intExtent[0] == 2 * half(p) && p.intExtent[3] - p.intExtent[1] == 2 * half(p) && extentOK(p.intExtent)
+// the root of an index whose extent is not a whole number of pixels is wider than its four children together: what the
+// descent needs of a parent is the weaker wfParentG, and that an end point inside the parent's extent is inside the
+// square its children tile
+//@ macro wfParentG(p) = half(p) > 0 && p.intCentroid[1] - p.intExtent[1] == half(p) && extentOK(p.intExtent)
+//@     && ordOK(p.intExtent[0] + 2 * half(p)) && ordOK(p.intExtent[1] + 2 * half(p))
+//@ macro tiled(p) = arr(p.intExtent[0], p.intExtent[1], p.intExtent[0] + 2 * half(p), p.intExtent[1] + 2 * half(p))
+//@ macro inExt(pt, e) = e[0] <= pt[0] && pt[0] < e[2] && e[1] <= pt[1] && pt[1] < e[3]
+//@ macro endsTiled(l, p) = (inExt(l[0], p.intExtent) ==> inExt(l[0], tiled(p))) && (inExt(l[1], p.intExtent) ==> inExt(l[1], tiled(p)))
 //@ macro childExt(p, dx, dy) = arr(p.intExtent[0] + ite(dx == 1, half(p), 0), p.intExtent[1] + ite(dy == 1, half(p), 0),
 //@     p.intExtent[0] + ite(dx == 1, half(p), 0) + half(p), p.intExtent[1] + ite(dy == 1, half(p), 0) + half(p))
 //@ macro childOK(qs, p, q, dx, dy) = hasKey(qs, q) ==> qs[q].intExtent == childExt(p, dx, dy)
@@ -420,7 +438,7 @@ package pointindex
 //@ func findIntersectingQuadrants
 //@   mode real
 //@   prelude geom
-//@   requires lineOK(intLine) && wfParent(parent)
+//@   requires lineOK(intLine) && wfParentG(parent) && endsTiled(intLine, parent)
 //@   requires childOK(quadrants, parent, 0, 0, 0) && childOK(quadrants, parent, 1, 1, 0) && childOK(quadrants, parent, 2, 0, 1) && childOK(quadrants, parent, 3, 1, 1)
 //@   use G_in0(intLine, childExt(parent, 0, 0)) && G_in1(intLine, childExt(parent, 0, 0))
 //@   use G_in0(intLine, childExt(parent, 1, 0)) && G_in1(intLine, childExt(parent, 1, 0))
@@ -494,6 +512,8 @@ package pointindex
 //@ macro tmsInGrid(tms, id, pt) = bbMinX(tms) <= trunc(pt[0] * 10000000000) && trunc(pt[0] * 10000000000) < bbMinX(tms) + tmsGridSpan(tms, id)
 //@     && bbMinY(tms) <= trunc(pt[1] * 10000000000) && trunc(pt[1] * 10000000000) < bbMinY(tms) + tmsGridSpan(tms, id)
 //@ macro allInGridT(tms, id, polygon) = forall(a, 0, len(polygon), forall(b, 0, len(polygon[a]), tmsInGrid(tms, id, polygon[a][b])))
+//@ macro tallY(ix) = ix.intExtent[1] + gridSpan(ix) <= ix.intExtent[3]
+//@ macro tmsTall(tms, id) = bbMinY(tms) + tmsGridSpan(tms, id) <= bbMaxY(tms)
 //@ macro tmsRound(tms, id) = bbMaxX(tms) == bbMinX(tms) + tmsGridSpan(tms, id) && bbMaxY(tms) == bbMinY(tms) + tmsGridSpan(tms, id)
 //@ func FromTileMatrixSet
 //@   prelude arith tmsaxis morton
@@ -501,6 +521,7 @@ package pointindex
 //@   let level = tmLevel(tileMatrixSet, deepestTMID)
 //@   let res = (bbMaxX(tileMatrixSet) - bbMinX(tileMatrixSet)) / pow2(level)
 //@   use pow2_split(level, 0)
+//@   use div_mul_le(bbMaxX(tileMatrixSet) - bbMinX(tileMatrixSet), pow2(level))
 //@   ensures[C03,C14] (result1 != nil) == (!hasKey(tileMatrixSet.TileMatrices, 0) || xyErr(tileMatrixSet))
 //@   ensures[C03,C14] result1 == nil ==> result0 != nil && wfIndex(result0)
 //@   ensures[C03,C02] result1 == nil ==> indexInv0(result0)
@@ -510,6 +531,7 @@ package pointindex
 //@   ensures result1 == nil ==> !isNil(result0.hitOnce) && !isNil(result0.hitMultiple)
 //@   ensures[C03,C08,C02,C09,C05,C06] result1 == nil ==> gridSpan(result0) == tmsGridSpan(tileMatrixSet, deepestTMID) using post(5)
 //@   ensures[C03,C08,C02,C09,C05,C06] result1 == nil && tmsRound(tileMatrixSet, deepestTMID) ==> roundGrid(result0) using post(6); post(8)
+//@   ensures[C03,C08,C02,C09,C05,C06] result1 == nil && tmsTall(tileMatrixSet, deepestTMID) ==> tallY(result0) using post(6); post(8)
 //@   ensures[C03] result1 == nil ==> result0.z == 0 && result0.intCentroid == arr(result0.intExtent[0] + hfloor(pixSpan(result0, 0)), result0.intExtent[1] + hfloor(pixSpan(result0, 0)))
 
 // DeviationStats: formats a report; what matters to validation is that it does not panic and fails when matrix 0
@@ -547,7 +569,11 @@ package pointindex
 //@            storedQ(ix, l - 1, z / 4) && wfParent(quadOf(ix, l - 1, z / 4))
 //@            && quadOf(ix, l, z).intExtent == childExt(quadOf(ix, l - 1, z / 4), z % 2, (z / 2) % 2), trigger(quadOf(ix, l, z)))
 //@ macro indexInv0(ix) = ix.deepestLevel <= 32 && !isNil(ix.quadrants) && extentOK(ix.intExtent) && entryInv(ix) && linkInv(ix)
-//@ macro indexInv(ix) = indexInv0(ix) && storedQ(ix, 0, 0) && quadOf(ix, 0, 0) == ix.Quadrant
+// the root: ix.Quadrant carries the full extent of the tile matrix set, the stored root pixel the square the grid covers
+// (they coincide on grids that divide evenly); key, centre and lower-left corner are the same
+//@ macro rootRepr(ix) = quadOf(ix, 0, 0).z == ix.z && quadOf(ix, 0, 0).intCentroid == ix.intCentroid
+//@     && quadOf(ix, 0, 0).intExtent[0] == ix.intExtent[0] && quadOf(ix, 0, 0).intExtent[1] == ix.intExtent[1]
+//@ macro indexInv(ix) = indexInv0(ix) && storedQ(ix, 0, 0) && rootRepr(ix)
 // grid alignment: every stored pixel of level l sits at (x, y) = FromZ(key) on the grid of level l, and carries that
 // pixel's extent and centre (C03: the coordinate formula of the property statement)
 //@ macro gridExt(ix, l, x, y) = arr(ix.intExtent[0] + x * pixSpan(ix, l), ix.intExtent[1] + y * pixSpan(ix, l), ix.intExtent[0] + (x + 1) * pixSpan(ix, l), ix.intExtent[1] + (y + 1) * pixSpan(ix, l))
@@ -558,7 +584,7 @@ package pointindex
 //@            && quadOf(ix, l, z).intCentroid == gridCentre(ix, l, even_bits(z), even_bits(z >> 1)), trigger(quadOf(ix, l, z)))
 //@ macro roundGrid(ix) = ix.intExtent[2] == ix.intExtent[0] + gridSpan(ix) && ix.intExtent[3] == ix.intExtent[1] + gridSpan(ix)
 // a list of pixels of level l: each element is the stored pixel of its key, and is met by the line
-//@ macro listSound(ix, line, l, s) = forall(i, 0, len(s), storedQ(ix, l, s[i].z) && s[i] == quadOf(ix, l, s[i].z) && meets(line, s[i].intExtent))
+//@ macro listSound(ix, line, l, s) = forall(i, 0, len(s), storedQ(ix, l, s[i].z) && (l >= 1 ==> s[i] == quadOf(ix, l, s[i].z)) && (l == 0 ==> s[i] == ix.Quadrant) && meets(line, s[i].intExtent))
 // ... and every stored pixel of level l met by the line is in the list (through its ghost set view)
 //@ macro listComplete(ix, line, l, set) = forall(z Int, storedQ(ix, l, z) && meets(line, quadOf(ix, l, z).intExtent) ==> set[z], trigger(quadOf(ix, l, z)))
 //@ macro viewOK(s, set, pos) = forall(z Int, set[z] ==> 0 <= pos[z] && pos[z] < len(s) && s[pos[z]].z == z, trigger(set[z]))
@@ -576,6 +602,7 @@ package pointindex
 //@   mode real
 //@   prelude geom arith
 //@   requires indexInv(ix) && lineOK(intLine)
+//@   requires ix.deepestLevel >= 1 ==> endsTiled(intLine, ix.Quadrant)
 //@   use forall(l Int, z Int, G_sub(intLine, quadOf(ix, l - 1, z / 4).intExtent, quadOf(ix, l, z).intExtent), trigger(quadOf(ix, l, z)))
 //@   ghostview parents by z
 //@   ghostview quadrantsIntersected by z
@@ -617,6 +644,9 @@ package pointindex
 //@   prelude geom arith
 //@   requires indexInv(ix) && !isNil(ix.hitOnce) && !isNil(ix.hitMultiple)
 //@   requires segCoordOK(line[0]) && segCoordOK(line[1])
+// both ends of the segment lie in the square the root's four children tile (the grid): true for the edges of a polygon
+// whose vertices have been inserted
+//@   requires ix.deepestLevel >= 1 ==> ptIn(line[0], tiled(ix)) && ptIn(line[1], tiled(ix))
 //@   modifies ix.hitOnce
 //@   modifies ix.hitMultiple
 //@   loop level as it
